@@ -25,16 +25,16 @@ TEXT = {
   "leaf semantics only: NthChild::has_index is proved equal to the CSS An+B definition (exists n >= 0. A*n+B == index) for all i32 triples, with no overflow (Verus, real body, nonlinear lemmas); the six attribute operators with all case modes and first-match case-insensitive attribute lookup are checked against spec functions on bounded strings (Kani, bounded, not counted) DenseHashSet (the set of matched handler ids) insert is proved exact for every u32 id (Verus U-DHS); Stack::get_stack_directive (void / self-closing-in-foreign) is complete over all name hashes (Kani U-STK); the selector compiler, VM and element stack are exercised only by the bounded oracle (322 generated selectors x all tag sequences up to length 4/5 + pseudo-random longer ones, independent CSS/tree oracle).",
   "cssparser/selectors parsing, the selector compiler and the VM's jump/bail-out logic are not under contract (bounded stand-in only); hashbrown maps trusted; known finding F-C04-1 (:not() with a compound argument)"),
  "C05": ("proof",
-  "the dispatcher flushes pending text before a tag reaches the controller and calls handle_end once after the last flush (Verus, real bodies); HandlerVec's for_each_active / deactivate / remove_tail call exactly the active handlers once, in the documented order, and keep user_count == sum of item counts (Kani, vector length <= 3, symbolic counts: bounded) Exactly one last-in-text-node chunk per text node (Verus U-TXT); DenseHashSet insert (U-DHS); stack directive (Kani U-STK).",
+  "the dispatcher flushes pending text before a tag reaches the controller and calls handle_end once after the last flush (Verus, real bodies); HandlerVec's for_each_active / deactivate / remove_tail call exactly the active handlers once, in the documented order, and keep user_count == sum of item counts (Kani, vector length <= 3, symbolic counts: bounded) Exactly one last-in-text-node chunk per text node (Verus U-TXT); DenseHashSet insert (U-DHS); stack directive (Kani U-STK). Every captured token reaches the handlers whether or not its content is emitted (Verus U-TS, ghost tokens_seen); HandlerVec counters are the sum of their items for any number of handlers (Verus U-HVECV); start/stop_matching balance for every handler combination of one registration (Kani, bounded). Bounded scoping mode in U-PARSE-B: text!(\"a\") and an on_end_tag handler on every element over all tag sequences up to length 4/5 (+ pseudo-random longer ones), with content removal variants, against a tree oracle.",
   "user handlers are environment; which elements match is C04; ContentHandlersDispatcher::{start,stop}_matching composition bounded only"),
  "C06": ("proof",
-  "everything one machine hands to the other is in the bookmark (create_bookmark / change_parser_directive / continue_from_bookmark pieces verified), got_flags_from_hint is set iff the scanner really hands the tag to the lexer, feedback is requested once per tag (Skip / ApplyUnhandledFeedback hand-over), and both machines run the same verified state functions under the same text-type invariant; the relational clause (H vs H+O give the same events) is not decided deductively",
+  "everything one machine hands to the other is in the bookmark (create_bookmark / change_parser_directive / continue_from_bookmark pieces verified), got_flags_from_hint is set iff the scanner really hands the tag to the lexer, feedback is requested once per tag (Skip / ApplyUnhandledFeedback hand-over), and both machines run the same verified state functions under the same text-type invariant; the relational clause (H vs H+O give the same events) is not decided deductively Bounded: selective element/text handlers (scanner with hand-over to the lexer) alone vs together with observers, documents with CDATA in foreign content, every 1-cut chunking.",
   "relational residual bounded only; A-parse-loop"),
  "C07": ("proof",
-  "the edit algebra is verified on the real bodies: MutationsInner::{replace,remove}, DynamicString::{push_front,push_back,clear,encode}, the impl_serialize! expansion for Comment/StartTag/EndTag (output == before ++ (self | replacement) ++ after), serialize_self of the three token kinds, every Element content mutator (after/prepend/append/set_inner_content/replace/remove/remove_and_keep_content incl. the void-element no-ops) against an abstract (start-tag edit, end-tag edit) view, and the dispatcher's emission toggling",
-  "Element struct reduced to the fields the mutators touch; Mutations::mutate/if_mutated assumed (A-mutate); attribute list serialisation and text chunks abstract; streaming handlers environment; attribute edits (set/remove with duplicates) only through the bounded attribute mode of U-PARSE-B"),
+  "the edit algebra is verified on the real bodies: MutationsInner::{replace,remove}, DynamicString::{push_front,push_back,clear,encode}, the impl_serialize! expansion for Comment/StartTag/EndTag (output == before ++ (self | replacement) ++ after), serialize_self of the three token kinds, every Element content mutator (after/prepend/append/set_inner_content/replace/remove/remove_and_keep_content incl. the void-element no-ops) against an abstract (start-tag edit, end-tag edit) view, and the dispatcher's emission toggling Bounded: every edit script of <= 3 insertions + optional replace/remove/remove_and_keep_content/set_inner_content + optional end-tag-handler edit against a model written from the API documentation.",
+  "Element struct reduced to the fields the mutators touch; Mutations::mutate/if_mutated assumed (A-mutate); attribute list serialisation and text chunks abstract; streaming handlers environment; attribute edits (set/remove with duplicates) only through the bounded attribute mode of U-PARSE-B; Element::into_end_tag_handler (closure composition) not under contract"),
  "C08": ("proof",
-  "attribute values: escape_double_quotes_only is proved, for every byte string, to emit exactly the input with each `\"` replaced by `&quot;` (Verus, real loop with an inductive invariant), <&Attribute as Serialize>::into_bytes emits name=\"<escaped value>\" and the part between the quotes is proved quote-free, so a value can never close the attribute it is written into; text escaping (escape_body_text) and the validators of names / comment text are bounded only (Kani harnesses on short strings, re-parse check of the real crate in U-PARSE-B)",
+  "attribute values: escape_double_quotes_only is proved, for every byte string, to emit exactly the input with each `\"` replaced by `&quot;` (Verus, real loop with an inductive invariant), <&Attribute as Serialize>::into_bytes emits name=\"<escaped value>\" and the part between the quotes is proved quote-free, so a value can never close the attribute it is written into; text escaping (escape_body_text) and the validators of names / comment text are bounded only (Kani harnesses on short strings, re-parse check of the real crate in U-PARSE-B) Attribute-name validation checked against its specification for all ASCII names of length <= 3 (Kani, bounded).",
   "A-split (std split_at_checked/get(1..) glue replaced by an assumed helper), A-memchr; escape_body_text, set_tag_name/set_attribute name validation, Comment::set_text and encoding of inserted content are NOT under a deductive contract (bounded stand-ins only); encoding_rs trusted"),
  "C09": ("proof",
   "consumed == f(registers) (get_consumed_byte_count, break_on_end_of_input), emit actions move lexeme_start to the lexeme end, tag_start is held exactly in the states between '<' and the end of the tag name (st_hold, all 74 state functions), finish_tag_name releases it on every path, and an end of input in a text state holds nothing back (uniform postcondition); write() keeps exactly chunk[consumed..]. Schedule independence is relational and only bounded.",
@@ -46,19 +46,19 @@ TEXT = {
   "the four error exits of write/end are verified: bail-out handlers run exactly once iff the error's own flag is set (ParsingAmbiguity never), before the raw flush; the flush covers every unemitted received byte; try_produce_token_from_lexeme keeps rcs at the failing lexeme (commit discipline). One known finding (F-C11-1: bytes held by the streaming text decoder are lost).",
   "A-parse-loop; observer-only controller for the byte-exact clause; the documented text-handler exception is modelled by the ghost text_failed"),
  "C12": ("proof",
-  "sink protocol as preconditions: handle_chunk requires !finalized, a zero-length chunk sets finalized; every emitting function is verified to keep the sink open, emit_token_bytes (the only path of token bytes) skips empty pieces, finish sends the empty chunk exactly on Ok, Dispatcher::new logs the encoding before any byte, flush_encoding_change logs at the current length",
+  "sink protocol as preconditions: handle_chunk requires !finalized, a zero-length chunk sets finalized; every emitting function is verified to keep the sink open, emit_token_bytes (the only path of token bytes) skips empty pieces, finish sends the empty chunk exactly on Ok, Dispatcher::new logs the encoding before any byte, flush_encoding_change logs at the current length HtmlRewriter::{write,end} poisoning (documented panic) under contract. Bounded: a handler failure injected at every call index, graceful and not, checking the zero-length-chunk protocol.",
   "HtmlRewriter's guarded! poisoning not yet under contract; serialisers' pieces abstract (R5 stub into_bytes_v)"),
  "C13": ("proof",
   "dispatcher side: the encoding switch takes effect in flush_encoding_change after the meta tag's token was consumed and the sink is notified before any later byte, Dispatcher::new announces the initial encoding (Verus U-TS); text decoder: over an opaque coder (A-coder) the real feed_text/flush_pending/split_utf8_start loops are verified - no byte bypasses a pending decoder, the decoder never sniffs a BOM, chunk ranges tile the input (Verus U-TXT); UTF-8 width helper complete over all u8 (Kani). Encoder for inserted content: over the same opaque-coder assumption the real TextEncoder::encode loop is verified - the input is covered by consecutive segments, each emitted verbatim only if all its bytes are ASCII, all others handed to the document's encoder in order, nothing skipped or repeated, sink order preserved (Verus U-ENC); the sink given to streaming handlers writes nothing raw while an encoder is installed, including the U+FFFD for a dangling incomplete sequence (Verus U-SSINK). What the coder computes (the 36 encodings) is covered only by the bounded encoding oracle against encoding_rs' one-shot decoder.",
   "A-coder (encoding_rs opaque: consumes a prefix, InputEmpty => all), A-txt-wf (TextDecoder invariant assumed at entry; a Verus limitation blocks re-proving it on the not-last path); A-coder-progress (the `encoding_rs stalled` arm is unreachable only under an assumed progress property of the coder); IncompleteUtf8Resync (streaming UTF-8 writes) not under contract; A-ssink-text (write_body_text opaque)"),
  "C14": ("proof",
-  "Lexeme::spanned == (previously_consumed + raw.start, input[raw]); create_lexeme_with_raw* build [lexeme_start, pos(+1)); emit actions tile (lexeme_start' == raw.end); every emitted lexeme is well-formed; Align impls are exact shifts so ranges survive a boundary; SpannedRawBytes::{len,set_modified,original} keep start and length Text-chunk source ranges tile their text node for every decoder behaviour (Verus U-TXT).",
+  "Lexeme::spanned == (previously_consumed + raw.start, input[raw]); create_lexeme_with_raw* build [lexeme_start, pos(+1)); emit actions tile (lexeme_start' == raw.end); every emitted lexeme is well-formed; Align impls are exact shifts so ranges survive a boundary; SpannedRawBytes::{len,set_modified,original} keep start and length Text-chunk source ranges tile their text node for every decoder behaviour (Verus U-TXT). Bounded: a start tag after 2^32 + 12345 bytes of earlier input (offsets beyond 32 bits) incl. attribute name/value locations.",
   "A-parse-loop (previously_consumed_byte_count += consumed in Parser::parse); text-chunk locations verified in U-TXT (tiling incl. bytes swallowed by the decoder); attribute locations not under contract"),
  "C15": ("proof",
   "for every function under contract Verus proves absence of overflow/underflow, out-of-bounds slicing/indexing, failed unwrap and failed (debug_)assert; in particular the lexer's and scanner's ActionError::internal sites are proved unreachable and the comment-range arithmetic cannot overflow. Kani adds bit-precise full-domain proofs for the limiter, LocalNameHash::update, NthChild::has_index. Decided only for the functions listed in the evidence. Added units: U-NTH, U-ESCQ, U-DHS, U-TXT, U-TBSV (overflow / bounds / unreachable internal asserts in has_index, the escaper, DenseHashSet::insert, the text decoder loop and the namespace stack).",
   "rest of the crate not covered; termination of state functions not proved (exec_allows_no_decreases_clause); stack depth, linear time not addressed"),
  "C16": ("proof",
-  "the lexer's token-building actions are verified on the real bodies (ranges from token_part_start..pos, comment range arithmetic, attribute push only for start tags, tag token exists wherever it is used); attribute lookup is first-match ASCII case-insensitive (Kani, bounded) The namespace stack behind namespace_uri()/self-closing handling is verified (U-TBSV); attribute reads/edits run against a list model in the bounded attribute mode.",
+  "the lexer's token-building actions are verified on the real bodies (ranges from token_part_start..pos, comment range arithmetic, attribute push only for start tags, tag token exists wherever it is used); attribute lookup is first-match ASCII case-insensitive (Kani, bounded) The namespace stack behind namespace_uri()/self-closing handling is verified (U-TBSV); attribute reads/edits run against a list model in the bounded attribute mode. Bounded: every string over `aB= \"'/` up to length 6/7 as the inside of a start tag against a reference WHATWG attribute tokenizer; tag-name reads (lower-casing, exact spelling, after set_tag_name, legacy encodings).",
   "Attributes materialisation, set/remove_attribute and can_have_content not yet under contract; known finding F-C16-1 (namespace_uri of integration-point elements)"),
 }
 
